@@ -192,7 +192,7 @@ class _LogCapture(logging.Handler):
             }
         )
         if record.levelno >= logging.WARNING:
-            first = msg.split("\n", 1)[0]
+            first = msg.replace(self.world.dir or "\0", "<cfg>").split("\n", 1)[0]
             self.world.trace.append(["log", self.world.vts(), record.name, record.levelname, first[:200]])
 
 
